@@ -28,6 +28,19 @@ def _is_zero(v):
     return v == 0
 
 
+_ALIVE = []
+
+
+def _term_key(v):
+    """identity of a value for memoisation: z3 AST id of a symbolic term (after simplification), the number itself otherwise"""
+    if is_sym(v):
+        import z3
+        t = z3.simplify(lift(v))
+        _ALIVE.append(t)            # keep the AST alive: z3 hash-conses structurally equal terms only among live ones, and ids are recycled
+        return ("t", t.get_id())
+    return ("n", float(v))
+
+
 def _scipy():
     import scipy.sparse as sps
     return sps
@@ -416,6 +429,15 @@ class LU:
         self.ctx.stub_used(self.label)
         pc = PathCtx.cur
         n = M.shape[1]
+        # a factorisation is a FUNCTION of (matrix, right-hand side): syntactically identical systems get the very same solution symbols
+        # (relational obligations - used object vs fresh object - rely on this; z3 hash-conses structurally equal terms)
+        key = (M.shape, M.indices.tobytes(), M.indptr.tobytes(), tuple(_term_key(v) for v in M.data), tuple(_term_key(v) for v in b))
+        memo = self.ctx.__dict__.setdefault("lu_memo", {})
+        if memo.get("__pc") is not pc:
+            memo.clear()
+            memo["__pc"] = pc
+        if key in memo:
+            return memo[key].copy()
         k = self.ctx.__dict__.setdefault("lu_solves", 0)
         self.ctx.__dict__["lu_solves"] = k + 1
         x = np.array([self.ctx.real(f"lu{k}_{i}", sample=(-1.0, 1.0)) for i in range(n)], dtype=object)
@@ -425,6 +447,7 @@ class LU:
         for i in range(M.shape[0]):
             c = _eq_scalar(res[i], b[i])
             pc.add(c if isinstance(c, z3.BoolRef) else z3.BoolVal(bool(c)))
+        memo[key] = x.copy()
         return x
 
 
